@@ -149,6 +149,7 @@ Record ixobs := mkObs {
 
 Record ixcase := mkCase {
   k_kind : ixkind; k_recs : list irec; k_queries : list (Z * Z * Z); k_strat : ixstrat;
+  k_qstrat : ixstrat;      (* bam.Index.MergeStrategy, applied by the public Chunks (nil = Adjacent) *)
   k_obs : ixobs }.
 
 Section Agree.
@@ -166,10 +167,11 @@ Section Agree.
     let s2 := m_sort m s1 in                         (* WriteIndex sorts *)
     let s3 := match strat_fn (k_strat c) with Some f => m_merge m f s2 | None => s2 end in
     let '(a3, _) := run_queries m s3 (k_queries c) in
+    let pub := match strat_fn (k_qstrat c) with Some f => f | None => ix_adjacent end in
     [c1; idump_eqb (m_dump m s) (o_dump o); istat_eqb (m_stat m s) (o_stat o);
      xlist_eqb qans_eqb a1 (o_q1 o); idump_eqb (m_dump m s3) (o_dump3 o); xlist_eqb qans_eqb a3 (o_q3 o);
-     xlist_eqb chunks_eqb (map (fun a => ix_adjacent (snd a)) a1) (o_p1 o);
-     xlist_eqb chunks_eqb (map (fun a => ix_adjacent (snd a)) a3) (o_p3 o)].
+     xlist_eqb chunks_eqb (map (fun a => pub (snd a)) a1) (o_p1 o);
+     xlist_eqb chunks_eqb (map (fun a => pub (snd a)) a3) (o_p3 o)].
 End Agree.
 
 Definition ix_explain (c : ixcase) : list bool :=
